@@ -51,6 +51,9 @@ type Actor struct {
 	RetErr  bool // return an error to the library after consuming
 	Inv     []*Invocation
 	MaxRead int // safety cap per invocation
+	// Probe, when set, is called at entry ("enter") and exit ("exit") of every invocation with
+	// the invocation index (harness-side observation of the stream position; not an event).
+	Probe func(phase string, inv int)
 }
 
 // ErrActor is the error an actor returns when RetErr is set.
@@ -97,6 +100,10 @@ func (a *Actor) Run(r io.Reader, header string, declared int) error {
 	}
 	inv := &Invocation{Header: header, Declared: declared}
 	a.Inv = append(a.Inv, inv)
+	if a.Probe != nil {
+		a.Probe("enter", len(a.Inv)-1)
+		defer a.Probe("exit", len(a.Inv)-1)
+	}
 	max := a.MaxRead
 	if max == 0 {
 		max = 1 << 20
@@ -132,6 +139,12 @@ func (a *Actor) Run(r io.Reader, header string, declared int) error {
 				n = 4096
 			}
 			b, err := pd.Peek(n)
+			// a view that refuses to peek beyond its end (all or nothing) is asked again for less:
+			// a Peek/Discard consumer of such a view learns its extent this way
+			for err != nil && len(b) == 0 && n > 1 {
+				n /= 2
+				b, err = pd.Peek(n)
+			}
 			if len(b) > 0 {
 				inv.Got = append(inv.Got, b...)
 				if _, derr := pd.Discard(len(b)); derr != nil {
